@@ -109,6 +109,13 @@ def gen_cases(ctx):
             o["all"] = True
         elif lv < 0.35:
             o["only_level"] = rng.choice([0, 1, 2, 3])
+        elif lv < 0.45:
+            # --only-level overrides --all and --at-level
+            o["only_level"] = rng.choice([1, 2, 3])
+            if rng.random() < 0.5:
+                o["all"] = True
+            else:
+                o["at_level"] = rng.choice([0, -1])
         r = rng.random()
         names = [worlds.layer_name(w, i) for i in range(len(w["layers"]))]
         if r < 0.2:
@@ -125,6 +132,9 @@ def gen_cases(ctx):
             # several patterns of one kind whose meaning depends on being compiled separately
             o["test"] = rng.choice([["(?i)T1 ", "T2 "], ["(?i)T0 ", "T3 ", "T4 "], ["!(?i)T1 ", "!T2 "], ["t(?P<a>1) ", "t(?P<a>2) "],
                                     ["t(1) ", "t(.)(?!\\1)\\d "], ["t(0) ", "t(2) ", "t(\\d)\\1 "], ["(?i)T[0-3] ", "T[4-9] "]])
+        elif rng.random() < 0.15:
+            # the empty pattern is a pattern too: it matches every name
+            o["test"] = rng.choice([["t1 ", ""], ["", "t2 "], ["", "!t1 "], [""]])
         if rng.random() < 0.25:
             # a relative search path, a test (in the first layer run) that leaves the process in another directory,
             # and a layer that cannot be torn down so that the rest is resumed in subprocesses
